@@ -181,3 +181,12 @@ Example optimize_preserves_example :
     = dask_get fam_apply oc_dict results /\
   dsk_atomic (scatter_dsk oc_dict) = true.
 Proof. crunch. Qed.
+
+(* optimize_preserves_calls on the same chain: results is a key; three calls before and after, in this case even in
+   the same order *)
+Example optimize_preserves_calls_example :
+  In results (dkeys oc_dict) /\
+  map fst (snd (dask_get_log fam_apply oc_dict results)) = [1; 1; 1]%positive /\
+  snd (dask_get_dist_log fam_apply (fst (fuse_steps (scatter_dsk oc_dict) [FInline 21; FInline 22])) results)
+    = snd (dask_get_log fam_apply oc_dict results).
+Proof. split; [vm_compute; right; right; left; reflexivity|]. crunch. Qed.
